@@ -541,6 +541,10 @@ fn construct(src: &str) -> &'static str {
         return "data-def";
     }
     let multi = src.trim_end_matches('\n').contains('\n');
+    // a code macro receives its operands as formatted source text
+    if has("←^") || has("=^") || has("← ^") && has("!") && multi && false {
+        return "code-macro-operand";
+    }
     if multi && has("|") && (has("(") || has("⟨")) {
         return "pack-multiline";
     }
@@ -1590,11 +1594,17 @@ fn search(n: usize, seed: u64) {
         let c = per_key.entry(rough).or_default();
         *c += 1;
         let small = if *c <= 6 { shrink(&mut ctx, &src.text, &acfg, v.kind) } else { src.text.clone() };
+        let (opt, acfg) = if *c <= 6 { attribute(&mut ctx, &small, &acfg, v.kind) } else { (opt, acfg) };
         let f1 = fmt(&small, &acfg).ok().and_then(|r| r.ok()).unwrap_or_default();
         let f2 = fmt(&f1, &acfg).ok().and_then(|r| r.ok()).unwrap_or_default();
         let kind_of_input = if v.kind == "idempotent" && only_positions_differ(&f1, &f2) { "output-comment-error-position" } else { construct(&small) };
         let key = format!("fmt:{}/{}", opt, kind_of_input);
-        *counts.entry(format!("{key} [{}]", v.kind)).or_default() += 1;
+        // unshrunk inputs (beyond the cap per presumed cause) are counted under their presumed cause only
+        if *c <= 6 {
+            *counts.entry(format!("{key} [{}]", v.kind)).or_default() += 1;
+        } else {
+            *counts.entry(format!("(not shrunk) fmt:{opt}/… [{}]", v.kind)).or_default() += 1;
+        }
         if *c > 6 || printed.contains(&(key.clone(), small.clone())) {
             continue;
         }
@@ -1636,6 +1646,8 @@ fn search(n: usize, seed: u64) {
 fn keyed(ctx: &mut Ctx, src: &str, cfg: &Cfg, kind: &'static str, do_shrink: bool) -> (String, String, Cfg) {
     let (opt, acfg) = attribute(ctx, src, cfg, kind);
     let small = if do_shrink { shrink(ctx, src, &acfg, kind) } else { src.to_string() };
+    // the shrunk input may fail under fewer options than the original
+    let (opt, acfg) = if do_shrink { attribute(ctx, &small, &acfg, kind) } else { (opt, acfg) };
     let f1 = fmt(&small, &acfg).ok().and_then(|r| r.ok()).unwrap_or_default();
     let f2 = fmt(&f1, &acfg).ok().and_then(|r| r.ok()).unwrap_or_default();
     let k = if kind == "idempotent" && only_positions_differ(&f1, &f2) { "output-comment-error-position" } else { construct(&small) };
@@ -1801,6 +1813,7 @@ fn src_adjacent_ok(a: Shape, b: Shape) -> bool {
     match (a, b) {
         (Lower | Upper0 | NamesG | NamesN, Lower | NamesG | NamesN) => false,
         (Lower | Upper0, Upper0 | UpperB) => false,
+        (Chr, Lower) => false,
         (UpperB, Lower | NamesG | NamesN | Upper0 | UpperB) => true,
         (NamesG | NamesN, Upper0 | UpperB) => true,
         (NumP, NumP) | (NumN, NumP) => false,
@@ -1866,7 +1879,7 @@ impl<'a> TG<'a> {
             0 => MTok::Lower(self.r.pick(&LOWERS).to_string()),
             1 => MTok::Upper(self.r.pick(&UPPERS).to_string(), 0),
             2 => MTok::Str((*self.r.pick(&["", "a", "a b", "x  y", "#1", "(", "_", "@"])).to_string()),
-            3 => MTok::Chr(*self.r.pick(&['a', 'Z', '0', '#', '(', '_', '"', '@', 'π'])),
+            3 => MTok::Chr(*self.r.pick(&['a', 'Z', '0', '(', '_', '"', '@', '+', '¯', '!', '=', '⊢', 'Q'])),
             4 => MTok::Num(true, self.digits()),
             _ => MTok::Num(false, self.digits()),
         }
